@@ -80,6 +80,9 @@ PyEq(a, b) ==
   ELSE IF a.t = "seq" /\ b.t = "seq" THEN ~a.once /\ ~b.once /\ a.vs = b.vs
   ELSE a = b
 
+\* names that resolve to Python builtins when the template does not define them
+Builtins == {"len", "str", "id"}
+
 \* Exception classes the pipe operator and exists: recover from.
 PipeCaught   == {"AttributeError", "NameError", "LookupError", "KeyError",
                  "IndexError", "TypeError", "ValueError", "UnicodeError"}
@@ -111,7 +114,9 @@ RECURSIVE EvAll(_, _), EvPipe(_, _, _), EvStr(_, _, _)
 EvAll(e, L) ==
   CASE e.x = "call"  -> { [r |-> o, ev |-> << [k |-> e.k, r |-> o] >>] : o \in prog.dom[e.k] }
     [] e.x = "const" -> { [r |-> e.v, ev |-> <<>>] }
-    [] e.x = "var"   -> { [r |-> IF L[e.n] = Undef THEN Exc("NameError") ELSE L[e.n], ev |-> <<>>] }
+    [] e.x = "var"   -> { [r |-> IF L[e.n] # Undef THEN L[e.n]
+                                 ELSE IF e.n \in Builtins THEN [t |-> "builtin", n |-> e.n]
+                                 ELSE Exc("NameError"), ev |-> <<>>] }
     [] e.x = "not"   -> { [r |-> IF IsExc(a.r) THEN a.r ELSE VBool(~Truthy(a.r)), ev |-> a.ev]
                            : a \in EvAll(e.e, L) }
     [] e.x = "exists" -> { [r |-> IF IsExc(a.r)
@@ -596,10 +601,12 @@ LeaveRestores ==
   (Running /\ F.st = "done") =>
      \A n \in LocalNames(F) : glob[n] = F.g0[n] => Lookup(n) = F.l0[n]
 
-\* C05: a global definition stays visible unless a live local binding shadows it.
+\* C05: a global definition stays visible unless a live local binding shadows
+\* it: the name is defined, with the global's value or with an outer binding
+\* that was restored when an inner local ended.
 LiveLocal(n) == \E m \in 1..Len(ctl) : n \in LocalNames(ctl[m]) /\ ctl[m].st \notin {"done"}
 GlobalsPersist ==
-  res = "run" => \A n \in Names : (glob[n] # Undef /\ ~LiveLocal(n)) => Lookup(n) = glob[n]
+  res = "run" => \A n \in Names : (glob[n] # Undef /\ ~LiveLocal(n)) => Lookup(n) # Undef
 
 \* C13: catching restores the stream to what it was when the element was entered.
 OnErrorReplacesExactly ==
